@@ -65,7 +65,8 @@ func (r *rec) take() []string {
 	return s
 }
 
-var schemaNew = true // answers of the two dbVersion statements: current schema (tempo_v2, v5) or an old one
+var bigComplexity = false // the TraceQL complexity statement answers 25e6 (portioned processing)
+var schemaNew = true      // answers of the two dbVersion statements: current schema (tempo_v2, v5) or an old one
 
 type drv struct{}
 type conn struct{}
@@ -79,8 +80,8 @@ func (drv) Open(string) (driver.Conn, error) { return &conn{}, nil }
 func (*conn) Prepare(string) (driver.Stmt, error) {
 	return nil, errors.New("prepare not supported by the scripted driver")
 }
-func (*conn) Close() error                              { return nil }
-func (*conn) Begin() (driver.Tx, error)                 { return nil, errors.New("no tx") }
+func (*conn) Close() error                             { return nil }
+func (*conn) Begin() (driver.Tx, error)                { return nil, errors.New("no tx") }
 func (*conn) CheckNamedValue(*driver.NamedValue) error { return nil }
 
 // the wire side: rows that make the reader go on to its follow-up statements
@@ -98,7 +99,14 @@ func (*conn) QueryContext(ctx context.Context, q string, args []driver.NamedValu
 		return &rowsT{cols: 1, rows: [][]driver.Value{{"metrics_15s"}}}, nil
 	case strings.Contains(q, "timestamp_ms") && strings.Contains(q, "fingerprint") && !strings.Contains(q, "labels"):
 		// CLokiQuerier.Select: (fingerprint, value, timestamp_ms) -> triggers labelsGetter.Fetch
+		if strings.Contains(q, "('c')") {
+			// the second selector of a multi-selector query: other series, so that its label fetch is recognisable
+			return &rowsT{cols: 3, rows: [][]driver.Value{{uint64(17), float64(1), int64(1704888000000)}, {uint64(19), float64(2), int64(1704888015000)}}}, nil
+		}
 		return &rowsT{cols: 3, rows: [][]driver.Value{{uint64(7), float64(1), int64(1704888000000)}, {uint64(9), float64(2), int64(1704888015000)}}}, nil
+	case bigComplexity && strings.Contains(q, "count() as _count"):
+		// TraceQL complexity estimate: 25e6 rows => the request is processed in 3 portions
+		return &rowsT{cols: 1, rows: [][]driver.Value{{int64(25000000)}}}, nil
 	}
 	return &rowsT{cols: 1}, nil
 }
@@ -155,9 +163,9 @@ type fakeRegistry struct {
 }
 
 func (r *fakeRegistry) GetDB(ctx context.Context) (*model.DataDatabasesMap, error) { return r.m, nil }
-func (r *fakeRegistry) Run()                                                        {}
-func (r *fakeRegistry) Stop()                                                       {}
-func (r *fakeRegistry) Ping() error                                                 { return nil }
+func (r *fakeRegistry) Run()                                                       {}
+func (r *fakeRegistry) Stop()                                                      {}
+func (r *fakeRegistry) Ping() error                                                { return nil }
 
 var sqlDB *sql.DB
 
@@ -220,6 +228,11 @@ type Endpoint struct {
 	NoWindow bool
 	WS       bool  // websocket endpoint (live tail)
 	Gran     int64 // granularity of the API's time parameters in ns (0 = 1): the requested window is what can be asked for
+	// a request that reads several windows (PromQL selectors with offsets): Offsets[k] is how far selector k's window
+	// lies before the request window; Selector tells which selector a recorded statement belongs to
+	Offsets  []int64
+	Selector func(sql string) int
+	Complex  bool // TraceQL: answer the complexity estimate with a large number
 }
 
 func get(path string, kv ...string) *http.Request {
@@ -277,6 +290,22 @@ func promRange(name, q string, stepS string, widen int64) Endpoint {
 	}}
 }
 
+// which selector of `... {a="b"} ... {a="c"} offset ...` a statement belongs to: the select carries the matcher
+// value, the label fetch the fingerprints the scripted database answered for that selector
+func promSelector(q string) int {
+	if strings.Contains(q, "('c')") || strings.Contains(q, "17") && strings.Contains(q, "19") && strings.Contains(q, "fingerprint IN (1") {
+		return 1
+	}
+	return 0
+}
+
+func promMulti(name, q string, stepS string, widen int64, offsets []int64) Endpoint {
+	e := promRange(name, q, stepS, widen)
+	e.Offsets = offsets
+	e.Selector = promSelector
+	return e
+}
+
 const traceID = "0123456789abcdef0123456789abcdef"
 
 func endpoints() []Endpoint {
@@ -331,6 +360,13 @@ func endpoints() []Endpoint {
 		promRange("prom_range_sum_over_time", `sum_over_time(up{a="b"}[5m])`, "60", 5*minute),
 		promRange("prom_range_quantile_over_time", `quantile_over_time(0.5, up{a="b"}[2m])`, "60", 2*minute),
 		promRange("prom_range_sum_by", `sum by (a) (up{a=~"b.*", c!="d"})`, "15", 5*minute),
+		promMulti("prom_range_offset_1d", `up{a="b"} or up{a="c"} offset 1d`, "15", 5*minute, []int64{0, 24 * 60 * minute}),
+		promMulti("prom_range_offset_36h", `up{a="b"} - up{a="c"} offset 36h`, "60", 5*minute, []int64{0, 36 * 60 * minute}),
+		promMulti("prom_range_rate_offset_1w", `rate(up{a="b"}[5m]) / rate(up{a="c"}[5m] offset 1w)`, "60", 5*minute, []int64{0, 7 * 24 * 60 * minute}),
+		promRange("prom_range_subquery", `max_over_time(up{a="b"}[30m:5m])`, "60", 35*minute),
+		{Name: "prom_instant_offset_1d", Api: "metrics", Offsets: []int64{0, 24 * 60 * minute}, Selector: promSelector, Build: func(w Window) (*http.Request, int64, int64) {
+			return get("/api/v1/query", "query", `up{a="b"} or up{a="c"} offset 1d`, "time", sec(w.ToNs)), 5*minute + 15*second, 15 * second
+		}},
 		{Name: "prom_instant", Api: "metrics", Build: func(w Window) (*http.Request, int64, int64) {
 			return get("/api/v1/query", "query", `up{a="b"}`, "time", sec(w.ToNs)), 5*minute + 15*second, 15 * second
 		}},
@@ -365,6 +401,9 @@ func endpoints() []Endpoint {
 			return get("/api/search", "start", sec(w.FromNs), "end", sec(w.ToNs), "limit", "20"), 0, 0
 		}},
 		{Name: "tempo_search_traceql", Api: "traces", Build: func(w Window) (*http.Request, int64, int64) {
+			return get("/api/search", "q", `{.a="b" && duration>1ms}`, "start", sec(w.FromNs), "end", sec(w.ToNs), "limit", "20"), 0, 0
+		}},
+		{Name: "tempo_search_traceql_portions", Api: "traces", Complex: true, Build: func(w Window) (*http.Request, int64, int64) {
 			return get("/api/search", "q", `{.a="b" && duration>1ms}`, "start", sec(w.FromNs), "end", sec(w.ToNs), "limit", "20"), 0, 0
 		}},
 		{Name: "tempo_search_traceql_attrless", Api: "traces", Build: func(w Window) (*http.Request, int64, int64) {
@@ -453,6 +492,7 @@ type Line struct {
 	NStmts   int    `json:"nstmts,omitempty"`
 	URL      string `json:"url,omitempty"`
 	Idx      int    `json:"idx,omitempty"`
+	Sel      int    `json:"sel,omitempty"` // which selector of a multi-window request the statement belongs to
 	SQL      string `json:"sql,omitempty"`
 	ParseErr string `json:"parse_err,omitempty"`
 	TreeCoq  string `json:"tree_coq,omitempty"` // only for the first statement of every (endpoint, layout) pair
@@ -649,9 +689,10 @@ func main() {
 		if ep.Name == "loki_instant_log" || ep.Name == "loki_instant_rate" {
 			from = to - 5*minute
 		}
-		if ep.Name == "prom_instant" {
+		if ep.Name == "prom_instant" || ep.Name == "prom_instant_offset_1d" {
 			from = to
 		}
+		bigComplexity = ep.Complex
 		recorder.take()
 		t0 := time.Now()
 		status, pnc := serve(router, ep, req)
@@ -677,6 +718,10 @@ func main() {
 		for k, s := range stmts {
 			l := base
 			l.Kind, l.ID, l.Idx, l.SQL = "stmt", id, k, s
+			if ep.Selector != nil {
+				l.Sel = ep.Selector(s)
+				l.FromNs, l.ToNs = from-ep.Offsets[l.Sel], to-ep.Offsets[l.Sel]
+			}
 			id++
 			node, err := sqlparse.Parse(s)
 			if err != nil {
